@@ -18,7 +18,7 @@ import re
 
 from ..cfg import CFG, node_expr, stmt_defs
 from ..facts import must_facts
-from ..model import Program, call_name, norm, expand_locals
+from ..model import Program, bool_equivalent, call_name, execution_condition, norm, expand_locals
 from ..poly import Rat, eval_expr
 from ..report import AnalysisError
 
@@ -191,6 +191,17 @@ def rule_r1(rep, program: Program):
             ad = norm(kw.get("adapters"))
             want = p_adapters if (in_loop or not has_windows) else "fast_adapters"
             r.inst({"stager": k.name, "warm-up stage": norm(kw.get("n_iter")), "adapters": ad, "in window loop": bool(in_loop)})
+            # a warm-up stage exists whenever warm-up iterations were requested - whatever the adapters / tracing options
+            stmt_c = c
+            pm_c = {ch: par for par in ast.walk(f.node) for ch in ast.iter_child_nodes(par)}
+            while stmt_c in pm_c and not isinstance(stmt_c, ast.stmt):
+                stmt_c = pm_c[stmt_c]
+            conds_c = execution_condition(f.node, stmt_c, stop_at=(ast.FunctionDef,))
+            if conds_c:
+                eqv = bool_equivalent(conds_c, ast.parse(f"{n_warm} > 0", mode="eval").body)
+                if eqv is not True:
+                    txt = " and ".join(("" if tr else "not ") + f"({norm(t)})" for t, tr in conds_c)
+                    r.violate(PROP, f"{k.name}.stages:warm-up:{norm(kw.get('n_iter'))}:condition", f"the warm-up stage of {norm(kw.get('n_iter'))} iterations is created only when `{txt}`, which is not equivalent to `{n_warm} > 0`: for the other inputs the requested warm-up iterations are silently dropped (the stage lengths no longer sum to the warm-up count)", node=c, file=f.file)
             if ad != want:
                 what = "a fast (non-window) warm-up stage is given the slow adapters as well" if want == "fast_adapters" else "a slow adaptation window / warm-up stage is not given all adapters"
                 r.violate(PROP, f"{k.name}.stages:warm-up:{norm(kw.get('n_iter'))}:adapters={ad}", what, node=c, file=f.file)
@@ -555,6 +566,35 @@ def _remainder_nonneg(r, k, f, n_warm):
     raise AnalysisError(f"{k.name}.stages: branch deriving the fast-stage lengths not found")
 
 
+def _is_has_iterations(t) -> bool:
+    """The test reads only <stage>.n_iter and is false for 0, true for every positive count."""
+    reads = {norm(n) for n in ast.walk(t) if isinstance(n, (ast.Attribute, ast.Name)) and not any(n is ch for par in ast.walk(t) if isinstance(par, ast.Attribute) for ch in [par.value])}
+    if not reads or not all(x.endswith(".n_iter") for x in reads):
+        return False
+
+    def ev(e, v):
+        if isinstance(e, ast.Attribute) and e.attr == "n_iter":
+            return v
+        if isinstance(e, ast.Constant) and isinstance(e.value, (int, float)):
+            return e.value
+        if isinstance(e, ast.UnaryOp) and isinstance(e.op, ast.Not):
+            return not ev(e.operand, v)
+        if isinstance(e, ast.BoolOp):
+            vals = [ev(x, v) for x in e.values]
+            return all(vals) if isinstance(e.op, ast.And) else any(vals)
+        if isinstance(e, ast.Compare) and len(e.ops) == 1:
+            a, b = ev(e.left, v), ev(e.comparators[0], v)
+            table = {ast.Lt: a < b, ast.LtE: a <= b, ast.Gt: a > b, ast.GtE: a >= b, ast.Eq: a == b, ast.NotEq: a != b}
+            if type(e.ops[0]) in table:
+                return table[type(e.ops[0])]
+        raise ValueError
+
+    try:
+        return not ev(t, 0) and all(bool(ev(t, v)) for v in (1, 2, 7, 1000))
+    except (ValueError, TypeError):
+        return False
+
+
 def rule_r2(rep, program: Program):
     r = rep.rule("R2", "step_size / metric are assigned only in constructors and Adapter methods; adapter methods run only under `adapters is not None` and from _finalize_adapters", floor=12)
     for fn in program.all_functions():
@@ -638,7 +678,7 @@ def rule_r2(rep, program: Program):
             if txt in nonempty:
                 continue
             # "the stage has iterations" (the zero-length skip written as an enclosing test): R3 decides that clause
-            if re.fullmatch(r"(not \w+\.n_iter == 0|\w+\.n_iter > 0|\w+\.n_iter != 0|\w+\.n_iter >= 1|\w+\.n_iter)", txt):
+            if _is_has_iterations(t):
                 continue
             if "adapter_states" in txt or "adapters" in txt:
                 r.violate(PROP, f"sample_chains:finalize-guard:{txt[:60]}", f"stage finalisation is additionally guarded by `{txt}`, which is stronger than 'the stage produced adapter states': a stage that performed adaptation updates can end without _finalize_adapters (e.g. one transition without active adapters next to one with), so the main stage runs with an unfinalised step size / metric", node=t if hasattr(t, "lineno") else c, file=sc.file)
